@@ -276,7 +276,7 @@ fn main() {
             let (rt, mt) = (ts(v.real), ts(v.mono));
             match c.ask(&format!("now {} {} {} {}", rt.tv_sec, rt.tv_nsec, mt.tv_sec, mt.tv_nsec)) {
                 None => {
-                    if c_mismatch.len() < 10 {
+                    if c_mismatch.len() < 10 && !matches!(got, Outcome::Panic(_)) {
                         c_mismatch.push(json!({"vector": desc, "rust": format!("{got:?}"), "c": "C driver died (crash in clockbound_now)"}));
                     }
                     // restart the driver
@@ -290,7 +290,10 @@ fn main() {
                         (Outcome::Err { kind: k1, errno: e1, detail: d1 }, Outcome::Err { kind: k2, errno: e2, detail: d2 }) => k1 == k2 && e1 == e2 && d1 == d2,
                         (a, b) => a == b,
                     };
-                    if !same && c_mismatch.len() < 10 {
+                    // a panic / death of either side is C14's business (and depends on the build profile of that side:
+                    // overflow checks), not a disagreement between the two libraries
+                    let crashed = matches!(got, Outcome::Panic(_)) || matches!(cgot, Outcome::Panic(_));
+                    if !same && !crashed && c_mismatch.len() < 10 {
                         c_mismatch.push(json!({"vector": desc, "rust": format!("{got:?}"), "c": format!("{cgot:?}")}));
                     }
                     if matches!(cgot, Outcome::Ok { .. }) && !(creads.len() == 2 && creads[0] == libc::CLOCK_REALTIME as i32 && creads[1] != libc::CLOCK_REALTIME as i32) && order_bad.len() < 10 {
